@@ -555,24 +555,50 @@ def check_signal_order(ctx):
     sites = [(P.own_method("Stage", "_grid_intg_fine"), "stage._method.signals.values()"), (P.own_method("DirectCollocation", "add_constraints"), "self.signals.values()")]
     for f, it in sites:
         sc = ctx.scope(f)
-        apps = [c for c in walk_no_nested(f.node) if is_call_to(c, "append", "v_sampled_store")]
-        if not apps:
+        # the stacking site: vertcat(*[e[i] for e in STORE]) names the store of per-signal blocks
+        stores = set()
+        stack = []
+        for c in walk_no_nested(f.node):
+            if isinstance(c, ast.Call) and ast.unparse(c.func) in ("ca.vertcat", "vertcat", "ca.vcat", "vcat") and c.args:
+                a = c.args[0].value if isinstance(c.args[0], ast.Starred) else c.args[0]
+                if isinstance(a, ast.ListComp) and len(a.generators) == 1 and isinstance(a.generators[0].iter, ast.Name) and isinstance(a.elt, ast.Subscript) \
+                        and isinstance(a.elt.value, ast.Name) and isinstance(a.generators[0].target, ast.Name) and a.elt.value.id == a.generators[0].target.id:
+                    nm = a.generators[0].iter.id
+                    if any(d.kind == "assign" and isinstance(d.value, (ast.List, ast.ListComp)) for d in sc.defs.get(nm, [])):
+                        stores.add(nm)
+                        stack.append(c)
+        if len(stores) != 1:
             raise AnalysisError("%s: store of sampled signals not found" % f.qualname)
-        for c in apps:
-            loops = sc.enclosing_loops(c)
-            ok = len(loops) == 1 and ast.unparse(loops[0][1]) == it
-            if ok:
-                lv = ast.unparse(loops[0][0])
-                a = c.args[0]
-                srcs = [a]
-                if isinstance(a, ast.Name):
-                    srcs = [d.value for d in sc.defs.get(a.id, []) if d.kind == "assign" and sc.within(d.stmt, loops[0][2])]
-                ok = bool(srcs) and all(any(isinstance(x, ast.Call) and isinstance(x.func, ast.Attribute) and x.func.attr == "sample" and ast.unparse(x.func.value) == lv for x in ast.walk(v)) for v in srcs)
+        store = stores.pop()
+
+        def from_own_sample(v, lv):
+            return any(isinstance(x, ast.Call) and isinstance(x.func, ast.Attribute) and x.func.attr == "sample" and ast.unparse(x.func.value) == lv for x in ast.walk(v))
+        fills = []
+        for d in sc.defs.get(store, []):
+            if d.kind == "assign" and isinstance(d.value, ast.ListComp):
+                gs = d.value.generators
+                ok = len(gs) == 1 and ast.unparse(gs[0].iter) == it and not gs[0].ifs and from_own_sample(d.value.elt, ast.unparse(gs[0].target))
+                fills.append((ok, d.stmt, ast.unparse(d.value)[:90]))
+            elif d.kind == "assign" and isinstance(d.value, ast.List) and d.value.elts:
+                fills.append((False, d.stmt, ast.unparse(d.value)[:90]))
+        for c in walk_no_nested(f.node):
+            if isinstance(c, ast.Call) and isinstance(c.func, ast.Attribute) and isinstance(c.func.value, ast.Name) and c.func.value.id == store and c.func.attr in ("append", "extend", "insert"):
+                loops = sc.enclosing_loops(c)
+                ok = c.func.attr == "append" and len(loops) == 1 and ast.unparse(loops[0][1]) == it
+                if ok:
+                    lv = ast.unparse(loops[0][0])
+                    a = c.args[0]
+                    srcs = [a]
+                    if isinstance(a, ast.Name):
+                        srcs = [d.value for d in sc.defs.get(a.id, []) if d.kind == "assign" and sc.within(d.stmt, loops[0][2])]
+                    ok = bool(srcs) and all(from_own_sample(v, lv) for v in srcs)
+                fills.append((ok, c, "%s in %s" % (ast.unparse(c)[:60], "; ".join("for %s in %s" % (ast.unparse(l[0]), ast.unparse(l[1])[:50]) for l in loops) or "no loop")))
+        if not fills:
+            raise AnalysisError("%s: the store of sampled signals is never filled" % f.qualname)
+        for ok, node, text in fills:
             ctx.check(ok, "%s stores one sampled block per signal, in registration order" % f.name, detail="sampled signals reordered (or taken from another signal): the p input of the function they are fed to is laid out in registration order",
-                      expected="for e in %s: v_sampled_store.append(<split of e.sample(...)>)" % it, found="%s in %s" % (ast.unparse(c)[:60], "; ".join("for %s in %s" % (ast.unparse(l[0]), ast.unparse(l[1])[:50]) for l in loops) or "no loop"), fi=f, node=c)
-        st = [c for c in walk_no_nested(f.node) if is_call_to(c, "append", "signals_sampled") and c.args and "v_sampled_store" in ast.unparse(c.args[0])]
-        ok = bool(st) and all(any(isinstance(x, ast.comprehension) and ast.unparse(x.iter) == "v_sampled_store" for x in ast.walk(c.args[0])) for c in st)
-        ctx.check(ok, "%s stacks the blocks of one sample position in store order" % f.name, detail="stacking order of the sampled signals", expected="vertcat(*[e[i] for e in v_sampled_store])", found="; ".join(ast.unparse(c.args[0])[:70] for c in st), fi=f)
+                      expected="one block per e in %s, built from e.sample(...), in that order" % it, found=text, fi=f, node=node)
+        ctx.check(bool(stack), "%s stacks the blocks of one sample position in store order" % f.name, detail="stacking order of the sampled signals", expected="vertcat(*[e[i] for e in <store>])", found="; ".join(ast.unparse(c)[:70] for c in stack), fi=f)
     g = P.own_method("SamplingMethod", "get_signals_at")
     rets = [r for r in walk_no_nested(g.node) if isinstance(r, ast.Return) and r.value is not None]
     ok = len(rets) == 1 and any(isinstance(x, ast.comprehension) and ast.unparse(x.iter) == "self.signals.values()" for x in ast.walk(rets[0].value)) and \
